@@ -7,7 +7,7 @@ import time
 from . import facts
 
 VERIF = facts.VERIF
-EVID = os.path.join(VERIF, "evidence")
+EVID = os.environ.get("VERIF_EVIDENCE") or os.path.join(VERIF, "evidence")   # (scratch runs of bin/mutest write elsewhere)
 KNOWN = os.path.join(VERIF, "known_findings.json")
 
 
